@@ -4,9 +4,9 @@
 #include <string.h>
 #include <uriparser/Uri.h>
 #include "uk.h"
-static int mm_requests, mm_failed, mm_frees;
+static int mm_requests, mm_failed, mm_frees, mm_armed;   /* failures are injected only while mm_armed is set (around the call under test) */
 #ifdef FAILING
-#define MM_MAYFAIL() do { mm_requests++; if (uk_choice(2, "fail")) { mm_failed++; return 0; } } while (0)
+#define MM_MAYFAIL() do { mm_requests++; if (mm_armed && uk_choice(2, "fail")) { mm_failed++; return 0; } } while (0)
 #else
 #define MM_MAYFAIL() do { mm_requests++; } while (0)
 #endif
